@@ -44,9 +44,6 @@ use crate::types::Segment;
 pub struct RaftLog<T: Types> {
     pub(crate) config: Arc<Config>,
 
-    /// Acquire the dir exclusive lock when writing to the log.
-    _dir_lock: FileLock,
-
     pub(crate) wal: RaftLogWAL<T>,
 
     pub(crate) state_machine: RaftLogStateMachine<T>,
@@ -57,6 +54,13 @@ pub struct RaftLog<T: Types> {
     removed_chunks: Vec<String>,
 
     access_stat: AccessStat,
+
+    /// Acquire the dir exclusive lock when writing to the log.
+    ///
+    /// It is the last field so that it is released last: `wal` is dropped
+    /// before it, which waits for the FlushWorker to finish. The directory
+    /// stays locked until nothing modifies it any more.
+    _dir_lock: FileLock,
 }
 
 impl<T: Types> RaftLogWriter<T> for RaftLog<T> {
